@@ -1,7 +1,7 @@
 """Property -> job sets, attribution rules, bounds."""
 
-CODEC_FAMS_Q = ['scalar', 'list', 'map', 'default', 'nocopy', 'unknown', 'ids', 'nest', 'threshold', 'twin']
-CODEC_FAMS_T = ['scalar', 'list', 'map', 'default', 'nocopy', 'unknown', 'ids', 'nest', 'threshold_full', 'twin']
+CODEC_FAMS_Q = ['scalar', 'list', 'map', 'default', 'nocopy', 'unknown', 'ids', 'nest', 'threshold', 'twin', 'spelling']
+CODEC_FAMS_T = ['scalar', 'list', 'map', 'default', 'nocopy', 'unknown', 'ids', 'nest', 'threshold_full', 'twin', 'spelling']
 
 JOBSETS = {
     'codec': {
@@ -103,6 +103,7 @@ JOBSETS['legacy'] = {
 PROPS = {
     'C17': {'jobsets': ['legacy'], 'phases': [''], 'translator_validation': 2},
     'C15': {'jobsets': ['depth'], 'phases': ['decode'], 'translator_validation': 4},
+    'C12': {'jobsets': ['codec'], 'phases': ['encode', 'decode'], 'job_filter': r'codec/(Sp|Sc|Tw|Id|Li_|Se_)', 'also_labels': r'^(C01|C02|C04)'},
     'C13': {'jobsets': ['invalid'], 'phases': [''], 'translator_validation': 4},
     'C07': {'jobsets': ['hist', 'dec2'], 'phases': ['pred', 'decode'], 'also_labels': r'^(C03|C09|C05|C06|C01)', 'job_filter': r'^(hist|dec2|decmsg)/'},
     'C06': {'jobsets': ['unit', 'dec2', 'decmsg', 'codec'], 'phases': [], 'job_filter': r'unit/(span|decoder)|^decmsg/|^dec2/|^codec/', 'also_labels': r'^M-(scan|align)'},
@@ -203,8 +204,15 @@ MANIFEST_TEXT.update({
             'technique': 'SSA-level symbolic execution + SMT (z3), non-interference by differential against the reference'},
 })
 
+MANIFEST_TEXT['C12'] = {
+    'level': 'Differential over the program dimension: the tags of every corpus type are EMITTED from a schema description by the inverse of the parser under test, the reference codec is derived from the schema '
+             'and never reads a tag, and frugal\'s real tag lookup / field resolution / type-annotation parser is executed by the engine to build the descriptor. One schema in 9 equivalent spellings (frugal vs thrift tag, both with '
+             'a contradicting thrift tag, omitted scalar annotations, byte for i8, package-qualified struct names, surrounding spaces, id-only thrift tags), decoy fields (untagged, unexported, embedded, foreign tag), declaration '
+             'order != id order, list-vs-set at nesting depth 0..2 on shared Go types, enum vs i64, ids 0..65535: sizes, bytes and decoded values must equal the reference for all values.',
+    'ref': 'DESIGN.md s7 C12', 'note': _CODEC_NOTE + ' The parser is exercised on the concrete tags of the corpus (an exact interpretation of the real code), values are symbolic; the symbolic-text parser harness (C12(2)) is not built.',
+    'technique': 'SSA-level execution of the real tag parser + symbolic codec differential against schema-derived reference'}
+
 NOT_APPLICABLE = {
     'C08': 'not built yet (planned: bounded interleavings of the descriptor cache)',
-    'C12': 'not built yet (planned: spellings + symbolic parser text)',
     'C18': 'Allocation behaviour is decided by the gc compiler\'s escape analysis/inlining and runtime internals that do not exist at the go/ssa level this technique encodes; measuring MemStats would be a different technique (DESIGN.md s7 C18).',
 }
